@@ -44,6 +44,7 @@ type Viol struct {
 	Detail    string `json:"detail"`
 	TapeFile  string `json:"tape_file"`
 	TapeLen   int    `json:"tape_len"`
+	Sample    interface{} `json:"sample,omitempty"`
 }
 
 type ReplayResult struct {
@@ -139,7 +140,7 @@ func TestWorker(t *testing.T) {
 				sum.Hashes[strconv.FormatUint(run, 10)] = fmt.Sprintf("%016x/%s", c.Key, v.Signature())
 			}
 			if v != nil {
-				vf := Viol{Run: run, Signature: v.Signature(), Detail: v.Detail, TapeLen: tp.Len()}
+				vf := Viol{Run: run, Signature: v.Signature(), Detail: v.Detail, TapeLen: tp.Len(), Sample: c.Sample}
 				if outDir != "" {
 					f := &tape.File{Property: id, Tier: tier, Seed: seed, Run: run, Signature: v.Signature(), Detail: v.Detail, Tape: tp.Vals, Trace: c.Log}
 					vf.TapeFile = filepath.Join(outDir, fmt.Sprintf("viol-%s-%d-%d.json", id, seed, run))
